@@ -8,6 +8,9 @@ CONSTANTS NP = 2
   Skip <- MCSkipOpen
   ResOut = 65531
   ResOther = 65532
+  Pipe = "never"
+  MaxBurst = 3
+  LenSet = "all"
   Thin = FALSE
 INIT Init
 NEXT Next
